@@ -211,6 +211,14 @@ def check_legality(rep, pid, tier_sizes, seed):
             continue
         for x, y in ((a, b), (b, a)):
             cases.append(["ttnew", "new " + x, "obs", "search 3 -1 0", "new " + y, "obs", "search 1 -1 0", "search 2 -1 0"])
+    # the opponent has just repeated a move (X Y X) while the mover, clearly worse, played IRREVERSIBLE moves in between: the
+    # mover's move of four plies ago — the one the root's repetition guard looks up in the record — no longer exists
+    for line in ["position fen 3q2k1/8/8/8/8/8/P7/K7 b - - 0 1 moves g8h8 a2a3 h8g8 a3a4 g8h8",
+                 "position fen 3q2k1/8/8/8/8/8/7P/7K b - - 0 1 moves g8f8 h2h3 f8g8 h3h4 g8f8",
+                 "position fen k7/p7/8/8/8/8/8/3Q2K1 w - - 0 1 moves g1h1 a7a6 h1g1 a6a5 g1h1",
+                 "position fen 6k1/8/8/8/8/8/PP6/K2r4 b - - 0 1 moves g8h8 b2b3 h8g8 b3b4 g8h8",
+                 "position fen 2r3k1/8/8/8/8/8/1P6/K7 b - - 0 1 moves g8h8 b2b3 h8g8 b3b4 g8h8"]:
+        cases.append(["ttnew", line, "obs", "search 1 -1 0", "search 2 -1 0", "search 4 -1 0"])
     # the longest lines the engine ever prints: unlimited searches of tiny positions (32 iterations, lines of up to 32 moves)
     for f in ("8/8/8/p1k5/P7/2K5/8/8 w - - 0 1", "4k3/8/8/p1p1p1p1/PpPpPpPp/1P1P1P1P/8/4K3 w - - 0 1", "8/6k1/8/6p1/6P1/8/6K1/8 b - - 0 1"):
         cases.append(["ttnew", "new " + f, "obs", "search - 60000 0"])
